@@ -237,8 +237,36 @@ def _padding_strippers(tree, ob):
     ob.require(n >= 1, 'remove_padding call sites: {}'.format(n))
 
 
+def _padding_handed_on(tree, ob):
+    ''' a layer without payload hands every octet behind its own fields on as padding, which scapy gives to the enclosing
+    layer: the next item of an extension list, the rest of the message.  An extract_padding() that returns nothing for
+    the remainder makes those octets vanish: a list of two items ends after the first, the lengths no longer add up and
+    the complete message is taken for a partial one for ever. '''
+    n = 0
+    for rel in ('tcpcl/formats.py', 'tcpcl/messages.py', 'tcpcl/contact.py', 'tcpcl/extend.py'):
+        if rel not in tree.modules:
+            continue
+        for (r, qual, func) in tree.all_functions([rel]):
+            if func.name != 'extract_padding' or len(func.args.args) < 2:
+                continue
+            n += 1
+            sp = func.args.args[1].arg
+            for ret in [x for x in walk_local(func) if isinstance(x, ast.Return)]:
+                v = ret.value
+                if isinstance(v, ast.Tuple) and len(v.elts) == 2:
+                    (pay, pad) = v.elts
+                    used = {x.id for e in (pay, pad) for x in ast.walk(e) if isinstance(x, ast.Name)}
+                    if sp in used:
+                        ob.site(rel, ret, qual + ': the octets behind the layer are handed on')
+                    else:
+                        ob.violate(rel, qual, src(ret)[:60], 'the octets that follow this layer are dropped instead of being handed on as padding: the second item of an extension list (and whatever '
+                                   'follows) is lost, the verified lengths no longer agree and a complete SESS_INIT / XFER_SEGMENT is never acted on', ret, sure=True)
+    ob.require(n >= 1, 'extract_padding definitions')
+
+
 def c07g(tree, ob):
     _padding_strippers(tree, ob)
+    _padding_handed_on(tree, ob)
     ''' recv_raw measures a message by re-encoding the probed packet.  scapy keeps octets that follow the last layer as
     a Padding layer, which is re-encoded too: unless the probe class strips it, the measured length covers the whole
     receive buffer and the octets of the next message are consumed with this one. '''
